@@ -10,6 +10,7 @@ import (
 	"reflect"
 	"regexp"
 	"strings"
+	"unsafe"
 )
 
 // bltn type defines functions which run at CFG execution.
@@ -125,15 +126,20 @@ func isExecNode(n *node, exec bltn) bool {
 		return false
 	}
 
-	a1 := reflect.ValueOf(n.exec).Pointer()
-	a2 := reflect.ValueOf(exec).Pointer()
-	return a1 == a2
+	return execAddr(n.exec) == execAddr(exec)
+}
+
+// execAddr returns the address of the closure exec, which identifies the node
+// it was generated for. The code pointer given by reflect.Value.Pointer is not
+// suitable, as it is shared by all the closures built by the same generator.
+func execAddr(exec bltn) uintptr {
+	return *(*uintptr)(unsafe.Pointer(&exec))
 }
 
 // originalExecNode looks in the tree of nodes for the node which has exec,
 // aside from n, in order to know where n "inherited" that exec from.
 func originalExecNode(n *node, exec bltn) *node {
-	execAddr := reflect.ValueOf(exec).Pointer()
+	addr := execAddr(exec)
 	var originalNode *node
 	seen := make(map[int64]struct{})
 	root := n
@@ -157,7 +163,7 @@ func originalExecNode(n *node, exec bltn) *node {
 			if wn.exec == nil {
 				return true
 			}
-			if reflect.ValueOf(wn.exec).Pointer() == execAddr {
+			if execAddr(wn.exec) == addr {
 				originalNode = wn
 				return false
 			}
